@@ -334,6 +334,7 @@ def shard_allmask(shard):
             ref = X.mesh_from_table(tab, sh)
             check_pair(part, "mesh3all", spec, obj, t, T, ref, False)
             part.add(1, 1 if 0 < len(ref) < len(tab) else 0)
+        part.bump("mesh3all:pairs", len(texts))
     return part
 
 
@@ -390,6 +391,7 @@ def shard_bivreq(shard):
     part = Partial()
     for spec in fam_biv(shard[0]):
         check_bivreq(part, spec)
+        part.bump("bivreq:patterns")
     return part
 
 
@@ -431,6 +433,7 @@ def shard_mixed(shard):
             mixed_types = any(classical[i] for i in idxs) and not all(classical[i] for i in idxs)
             split = any(c[i] for i in idxs) and not all(c[i] for i in idxs)
             part.add(1, 1 if (mixed_types and split) else 0)
+        part.bump("mixed:argument-lists-x-texts", len(lists))
     return part
 
 
@@ -494,7 +497,7 @@ def run(ctx, only=None):
         build_family("codebase", fam_codebase(), ctx)
         top = 7 if quick else 8
         for n, lo, hi in text_shards(range(3, top + 1), len(_FAM["codebase"]), 1.0e4):
-            jobs.append((shard_family, ("codebase", "big", n, lo, hi, n <= 6)))
+            jobs.append((shard_family, ("codebase", "codebase", n, lo, hi, n <= 6)))
         ctx.bounds["codebase"] = {"patterns": "the %d mesh patterns used in permuta/bisc/perm_properties.py "
                                               "(lengths 3, 4, 6)" % len(_FAM["codebase"]),
                                   "texts": "length 3..%d" % top}
@@ -547,7 +550,7 @@ def _dispatch(shard):
 def replay(ctx, rec):
     lib = _lib()
     sub, case = rec["sub"], rec["case"]
-    if sub in ("mesh", "mesh3", "mesh3all", "big", "biv", "derived"):
+    if sub in ("mesh", "mesh3", "mesh3all", "big", "codebase", "biv", "derived"):
         spec = case_spec(case)
         t = tuple(case["text"])
         try:
